@@ -376,5 +376,4 @@ def run(repo, rep):
     rep.clause("C19-d", "constant folding and table generation divide float32 scales only after widening them to double (reference precision) [rule shared with C09-b]")
     from . import c09
 
-    with rep.borrow({"C09-b": "C19-d"}):
-        c09.run(repo, rep)
+    rep.run_borrowed(c09, {"C09-b": "C19-d"}, repo)
